@@ -48,7 +48,8 @@ const (
 	vscChainLen = 8
 	vscBeaconID = "vsc-chain"
 	vscSelfAddr = "vsc-self:1"
-	vscPeriod   = 10 * time.Second
+	vscPeriod   = 1 * time.Second // StartFollowChain waits one REAL period before a retry
+	vscAttempts = 3               // Sync attempts after which a scenario that keeps failing is ended
 )
 
 type vscPeerType struct {
@@ -67,6 +68,9 @@ type vscScenario struct {
 	Target  uint64        `json:"target"`
 	Peers   []vscPeerType `json:"peers"`
 	BadHash bool          `json:"badhash"` // the operator supplies another chain hash than the peers serve
+	// Dispatch: instead of following, hand the progress callback of StartFollowChain these rounds, as the
+	// callback worker does when they were stored before the cancellation landed
+	Dispatch []uint64 `json:"dispatch"`
 }
 
 // vscTrace writes every event straight to the file (append, unbuffered): StartFollowChain can
@@ -602,8 +606,12 @@ func (h *vscHarness) settle(ret chan error, returned *bool, rerr *string) bool {
 		if q {
 			total, busy, nilSend, _ := vscSyncGoroutines()
 			// quiescent: StartFollowChain returned, or its Sync is parked on a silent stream (Run + tryNode),
-			// or Sync returned and its result is stuck on the nil errChan
-			q = busy == 0 && (*returned || total >= 2 || nilSend > h.nilBase)
+			// or Sync returned and its result is stuck on a nil errChan (code before fix F3), or the
+			// follower is between two attempts after vscAttempts failed ones (only Run is left)
+			h.mu.Lock()
+			attempts := len(h.tasks)
+			h.mu.Unlock()
+			q = busy == 0 && (*returned || total >= 2 || nilSend > h.nilBase || (attempts >= vscAttempts && total == 1))
 		}
 		if q {
 			okRuns++
@@ -713,6 +721,20 @@ func vscRunFollow(t *testing.T, tr *vscTrace, sc vscScenario, seed int64) {
 		tr.Emit("BeforePut", vlib.E{"sid": st.sid, "round": round})
 	})
 
+	if len(sc.Dispatch) > 0 {
+		// the real progress callback, driven as the callback worker drives it
+		ctx, cancel := context.WithCancel(context.Background())
+		cb, _ := bp.sendProgressCallback(ctx, &vscFollowStream{ctx: ctx, h: h}, sc.Target, ch.info, clk)
+		for _, r := range sc.Dispatch {
+			tr.Emit("Progress", vlib.E{"what": "dispatch", "round": r})
+			cb(ch.clone(r), false)
+		}
+		cancel()
+		tr.Emit("End", vlib.E{"head": -1, "rounds": [][]any{}, "ticks": 0, "returned": true, "ret": "dispatch", "quiescent": false,
+			"blocked": [][]any{}, "liveness": false, "attempts": 0})
+		sched.Uninstall()
+		return
+	}
 	nodes := []string{vscSelfAddr}
 	for i := range sc.Peers {
 		nodes = append(nodes, vscPeerAddr(i+1))
@@ -778,34 +800,37 @@ func vscRunFollow(t *testing.T, tr *vscTrace, sc vscScenario, seed int64) {
 		st.mu.Unlock()
 	}
 	h.mu.Unlock()
-	if !returned && bp.dbStore != nil {
-		snap(bp.dbStore)
+	// stop the follower (it closes its store when it returns), then read the database as an outside reader
+	followReturned := returned
+	attempts := func() int { h.mu.Lock(); defer h.mu.Unlock(); return len(h.tasks) }()
+	cancel()
+	if !returned {
+		select {
+		case <-ret:
+			returned = true
+		case <-time.After(5 * time.Second):
+			h.timedOut = true
+			tr.Emit("Timeout", vlib.E{"what": "StartFollowChain did not return after cancel"})
+		}
 	}
 	if returned {
-		// StartFollowChain closed its store when it returned: reopen the database read-only for the snapshot
 		if db, err := boltdb.NewBoltStore(context.Background(), lg, cfg.DBFolder(vscBeaconID)); err == nil {
 			bp.dbStore = db
 			snap(db)
 			db.Close()
 		}
 	}
-	// `returned` of the End event = the Sync attempt is over (StartFollowChain returned, or its Sync returned
-	// and the result sits on the nil errChan); ret tells which
+	// `returned` of the End event = the last Sync attempt is over; ret tells how
 	retClass := rerr
-	if !returned && nilSend {
+	switch {
+	case !followReturned && nilSend:
 		retClass = "sync-returned-errchan-nil"
+	case !followReturned && len(blocked) == 0:
+		retClass = "still-failing-after-retries"
 	}
-	tr.Emit("End", vlib.E{"head": head, "rounds": rounds, "ticks": 6, "returned": returned || nilSend, "ret": retClass,
+	tr.Emit("End", vlib.E{"head": head, "rounds": rounds, "ticks": 6, "returned": followReturned || len(blocked) == 0, "ret": retClass,
 		"quiescent": ok && !h.timedOut, "blocked": blocked, "liveness": !h.timedOut && !sc.BadHash, "opens": before, "opens_after": opens(),
-		"follow_returned": returned})
-	cancel()
-	if !returned {
-		select {
-		case <-ret:
-		case <-time.After(5 * time.Second):
-			tr.Emit("Timeout", vlib.E{"what": "StartFollowChain did not return after cancel"})
-		}
-	}
+		"follow_returned": followReturned, "attempts": attempts})
 	sched.Uninstall()
 	vlib.Eventually(5*time.Second, func() bool { n, _, _, _ := vscSyncGoroutines(); return n == 0 })
 	vlib.Eventually(2*time.Second, func() bool {
@@ -851,6 +876,8 @@ func vscFollowBuiltin() []vscScenario {
 			vscScenario{Name: "follow-forever-" + c, Chained: chained, Start: 1, Target: 0, Peers: []vscPeerType{H(5), H(5), H(5)}},
 			vscScenario{Name: "follow-skip-target-" + c, Chained: chained, Start: 1, Target: 3,
 				Peers: []vscPeerType{vscPT("WrongRound", "WrongRound", 1, 8), vscPT("WrongRound", "WrongRound", 1, 8), vscPT("WrongRound", "WrongRound", 1, 8)}},
+			vscScenario{Name: "follow-double-dispatch-" + c, Chained: chained, Start: 0, Target: 3, Dispatch: []uint64{3, 4, 5},
+				Peers: []vscPeerType{H(6), H(6), H(6)}},
 			vscScenario{Name: "follow-badhash-" + c, Chained: chained, Start: 0, Target: 3, BadHash: true, Peers: []vscPeerType{H(6), H(6), H(6)}},
 		)
 	}
